@@ -18,7 +18,8 @@ Theorem spelling_entry_points k1 k2 : wfb k1 = true -> wfb k2 = true -> strings 
     set_ k1 v es = set_ k2 v es /\ del_ k1 es = del_ k2 es /\ get k1 es = get k2 es
     /\ pop k1 hd es = pop k2 hd es /\ view_contains inc k1 es = view_contains inc k2 es
     /\ setdefault k1 v es = setdefault k2 v es
-    /\ step es (OSet k1 v) = step es (OSetItem k2 v) /\ step es (ODel k1) = step es (ODelItem k2).
+    /\ step es (OSet k1 v) = step es (OSetItem k2 v) /\ step es (ODel k1) = step es (ODelItem k2)
+    /\ td_contains k1 es = td_contains k2 es.
 Proof.
   intros W1 W2 E v hd inc es. destruct (unravel_spelling k1 k2 W1 W2 E) as [T K].
   destruct (wf_key_tuple k2 W2) as [U2 N2].
@@ -27,6 +28,11 @@ Proof.
   unfold set_, del_, get, pop, view_contains. rewrite T. repeat split; try reflexivity; try exact SD.
   - cbn [step]. unfold set_. rewrite T, U2. destruct (strings k2); [congruence|reflexivity].
   - cbn [step]. unfold del_. now rewrite T.
+  - (* `in` on the tensordict: str goes to _StringKeys, a tuple is unravelled (after the fix of D43 the str "" too) *)
+    assert (TC : forall k, wfb k = true -> td_contains k es = view_contains_path true (strings k) es).
+    { intros k W. destruct (wf_key_tuple k W) as [_ N]. destruct k as [s|l|]; [reflexivity| |discriminate].
+      unfold td_contains. rewrite (wf_key_keyres _ W). destruct (strings (KT l)) as [|a [|b r]]; [congruence|reflexivity|reflexivity]. }
+    now rewrite (TC k1 W1), (TC k2 W2), E.
 Qed.
 
 Theorem spelling_rename k1 k2 k1' k2' safe es :
